@@ -5,6 +5,7 @@ import (
 	"go/types"
 	"regexp"
 	"sort"
+	"strings"
 
 	"golang.org/x/tools/go/ssa"
 )
@@ -259,14 +260,36 @@ func (p *Prog) StaticCallee(shorts ...string) (CalleeMatcher, []string) {
 				return true
 			}
 		}
-		// method value / bound method closures
+		// method value / bound method closures: `f := x.M; f(...)` calls the synthetic wrapper M$bound
 		if mc, ok := c.Value.(*ssa.MakeClosure); ok {
-			if f, ok := mc.Fn.(*ssa.Function); ok && set[f] {
-				return true
+			if f, ok := mc.Fn.(*ssa.Function); ok {
+				if set[f] {
+					return true
+				}
+				if u := p.UnwrapSynthetic(f); u != nil && (set[u] || (u.Origin() != nil && set[u.Origin()])) {
+					return true
+				}
 			}
 		}
 		return false
 	}, missing
+}
+
+// UnwrapSynthetic: the declared method behind a synthetic wrapper (bound method
+// value `x.M`, method expression thunk `T.M`), nil for anything else or for an
+// interface method (which has no body).
+func (p *Prog) UnwrapSynthetic(f *ssa.Function) *ssa.Function {
+	if f == nil || f.Synthetic == "" {
+		return nil
+	}
+	if !strings.HasPrefix(f.Synthetic, "bound method wrapper") && !strings.HasPrefix(f.Synthetic, "thunk") {
+		return nil
+	}
+	obj, ok := f.Object().(*types.Func)
+	if !ok || obj == nil {
+		return nil
+	}
+	return p.SSA.FuncValue(obj)
 }
 
 // IfaceCallee matches (a) invokes of method `name` on any interface type
@@ -293,6 +316,15 @@ func (p *Prog) IfaceCallee(ifaceShort string, names ...string) (CalleeMatcher, b
 				return false
 			}
 			return types.Implements(c.Value.Type(), it)
+		}
+		// `f := iface.M; f(...)`: a call of the bound-method wrapper of an interface method
+		if mc, ok := c.Value.(*ssa.MakeClosure); ok && len(mc.Bindings) == 1 {
+			if w, ok := mc.Fn.(*ssa.Function); ok && strings.HasPrefix(w.Synthetic, "bound method wrapper") {
+				if obj, ok := w.Object().(*types.Func); ok && obj != nil && want[obj.Name()] {
+					rt := mc.Bindings[0].Type()
+					return types.Implements(rt, it) || types.Implements(types.NewPointer(rt), it)
+				}
+			}
 		}
 		f := c.StaticCallee()
 		if f == nil || f.Signature.Recv() == nil || !want[f.Name()] {
@@ -355,8 +387,14 @@ func (p *Prog) FuncValueUses(shorts ...string) []CallSite {
 						continue
 					}
 					f, ok := (*op).(*ssa.Function)
-					if !ok || !set[f] {
+					if !ok {
 						continue
+					}
+					if !set[f] {
+						// a bound method value `x.M` names the wrapper M$bound, not M
+						if u := p.UnwrapSynthetic(f); u == nil || !(set[u] || (u.Origin() != nil && set[u.Origin()])) {
+							continue
+						}
 					}
 					// direct call position?
 					if c, ok := in.(ssa.CallInstruction); ok && k == 0 && c.Common().Value == f {
